@@ -49,7 +49,8 @@ ASSUMPTIONS = [
     'generator, per request, per source; update_noise may or may not advance it) is used ONLY to attribute a chunk-dependence '
     'to its own mechanism key and to keep verifying the deterministic part of such streams',
     'start-of-observation flag: True at construction and after set_time/add_time/reset_start, False after a request',
-    'add_time(t): new clock within 1 ulp of (old clock + t); set_time(t): clock == t exactly; reset_start: clock unchanged',
+    'add_time(t): new clock of the object asked within 1 ulp of (its old clock + t); set_time(t): every clock == t exactly; '
+    'reset_start: clock of the antenna unchanged; the streams of an antenna are held to the accumulated-clock bound',
     'the Antenna clock is compared with its streams only for antennas driven through their own API (arrays are C15)',
 ]
 
@@ -262,7 +263,7 @@ def _gen_sources(rng, comp, fs, fch1, asc, tmax, j):
 
 def gen_cases(seed, tier):
     rng = np.random.default_rng([seed, 10])
-    n = 2016 if tier == 'quick' else 60480
+    n = 1512 if tier == 'quick' else 45360
     cases = []
     for i in range(n):
         kind = KINDS[i % 3]
@@ -411,7 +412,7 @@ class RefStream:
             for cand in (after, st):
                 if not any(cand['state'] == o['state'] for o in new):
                     new.append(cand)
-        self.cands = new[:8]
+        self.cands = new[:32]
 
     # -- time
     def time_bound(self, n):
@@ -690,7 +691,6 @@ def run_case(c, R):
     returned = [[] for _ in range(pols)]       # (reference to returned array, copy) per request
     nreq = 0
     decidable_any = False
-    mutated_mid = False
 
     for op in c['ops']:
         code = op[0]
@@ -748,6 +748,7 @@ def run_case(c, R):
                     R.count('twin_noise_samples', n)
                     # attribution shadow: all noise sources drawing from one shared generator, per request, per source
                     sh = None
+                    keep = []
                     for st in ref.cands:
                         noise, nabs, after = ref._noise(st, n)
                         e2, b2 = _compare(vs[p], noise + sig, sbound + 8 * EPS * (nabs + sabs) + 1e-300)
@@ -755,8 +756,8 @@ def run_case(c, R):
                         if sh is None or n2 < sh[0]:
                             sh = (n2, noise + sig, e2, b2, after)
                         if n2 == 0:
-                            break
-                    ref.cands = [sh[4]]
+                            keep.append(after)      # an undecidable request cannot tell the candidates apart: keep all
+                    ref.cands = keep or [sh[4]]
                     if nb and sh[0] == 0:
                         # the samples are those of a generator shared by the sources and consumed request by request:
                         # they depend on how the requests were chunked
@@ -844,7 +845,7 @@ def run_case(c, R):
             for (name, o, ref), b in zip(clock_objects(), before):
                 who = 'antenna' if name == 'antenna' else 'stream'
                 got = _clockval(o.t_start)
-                if b is not None and got is not None:
+                if o is obj and b is not None and got is not None:     # the object asked; its streams: bound vs reference below
                     want = b + _frac(t)
                     tol = max(_ulp(float(want)), _ulp(float(b)))
                     R.check(abs(got - want) <= Fraction(tol), f'clock:{who}:after-add_time:not-old-plus-t', got=repr(o.t_start),
@@ -860,9 +861,10 @@ def run_case(c, R):
                 r.since_set = 0
             for (name, o, ref), b in zip(clock_objects(), before):
                 who = 'antenna' if name == 'antenna' else 'stream'
-                R.check(_clockval(o.t_start) == b, f'clock:{who}:changed-by-reset_start', got=repr(o.t_start),
-                        before=None if b is None else float(b))
-                R.count('clock_checks')
+                if o is obj:        # the object asked; its streams are compared with the reference within the clock bound
+                    R.check(_clockval(o.t_start) == b, f'clock:{who}:changed-by-reset_start', got=repr(o.t_start),
+                            before=None if b is None else float(b))
+                    R.count('clock_checks')
             check_clock_vs_ref('reset_start')
             check_flags('reset_start', True)
             check_antenna_sync('reset_start')
@@ -874,11 +876,16 @@ def run_case(c, R):
                 streams[p].update_noise()
             else:
                 streams[p].update_noise(stats_calc_num_samples=m)
-            refs[p].internal_request(10000 if m is None else int(m))
+            mm = 10000 if m is None else int(m)
+            refs[p].internal_request(mm)
             for (name, o, ref), (b, f) in zip(clock_objects(), before):
                 who = 'antenna' if name == 'antenna' else 'stream'
-                R.check(_clockval(o.t_start) == b, f'clock:{who}:changed-by-update_noise', got=repr(o.t_start),
-                        before=None if b is None else float(b))
+                got = _clockval(o.t_start)
+                tolu = 0.0 if b is None else 2 * _ulp(abs(float(b)) + mm / fs)      # restored, not necessarily bit for bit
+                ok = got is not None and b is not None and abs(got - b) <= Fraction(tolu)
+                R.check(ok, f'clock:{who}:changed-by-update_noise', got=repr(o.t_start), before=None if b is None else float(b))
+                if ok and got != b and name != 'antenna':
+                    ref.budget += tolu
                 R.check(bool(o.start_obs) == f, f'start-obs-flag:{who}:changed-by-update_noise', got=repr(o.start_obs), before=f)
                 R.count('clock_checks')
             check_antenna_sync('update_noise')
@@ -888,7 +895,6 @@ def run_case(c, R):
             _add_source(u, streams[p], spec)
             refs[p].add(spec)
             note_source(spec)
-            mutated_mid = True
         else:
             raise ValueError(code)
 
